@@ -9,7 +9,7 @@ Inputs ==
             [] sh.kind = "bd" -> {[e |-> "bget", level |-> lv] : lv \in BOOLEAN} \cup {[e |-> "bdset", p |-> p] : p \in {1, 4}}
             [] sh.kind = "pf" -> {[e |-> "rec", lvl |-> x] : x \in {20, 30, 40}}
             [] sh.kind = "wd" -> {[e |-> "reset"], [e |-> "expired"], [e |-> "epoch"], [e |-> "print"],
-                                  [e |-> "settimeout", t |-> 31250]})
+                                  [e |-> "settimeout", t |-> 31250], [e |-> "enable"], [e |-> "disable"], [e |-> "gettime"]})
 MCNext == \E ev \in Inputs : EvNext(ev)
 MCSpec == MCInit /\ [][MCNext]_cvars
 Bound == now <= MaxNow /\ TLCGet("level") <= MaxLevel /\ wdEpochs <= 2
